@@ -33,16 +33,20 @@
   delete by position / name                  deleteNth_hosts; C02.delete_host_exact
   positions returned by lookup               find_sound, find_eq_idxOf (small names); find_miss_big_suffix (F16-BIGSUFFIX)
   counts                                     deleteNth_hosts (.count), uniq_count, Good invariants
-  hosts seen by EVERY live iterator          edit_refines_multi_new/_free/_reset/_next/_shift/_pop/_push/_uniq;
+  hosts seen by EVERY live iterator          edit_refines_multi_new/_free/_reset/_next/_remove/_shift/_pop/_push/
+                                             _delete_nth/_delete_host/_find/_uniq;
                                              one iterator: edit_refines_* (also remove, uniq, push text)
   duplicates removed, none lost              uniq_names, edit_refines_uniq (IF duplicate-free); uniq_keeps_duplicate (F16-UNIQ)
 
-  Not proved (correspondence + witnesses only): `hostlist_remove` / `hostlist_delete_nth` /
-  `hostlist_delete_host` as seen by OTHER live iterators (`hostlist_host_deleted`, the repair of
-  F16-MULTI / F16-DELETE-UNDER-ITERATOR: `multi_witness`, `delete_under_iterator_witness` and the
-  three-way correspondence with up to 3 live iterators); `hostlist_sort` (not in the editable model: judged against the
-  plain-list specification only); a push while an iterator stands at the end (true once F16-ENDPUSH is
-  repaired: `endpush_witness`; `AtPos` / `itNext_none_pos` of Hostlist/LemmasIterEdit.lean are the
+  Proved since (round 2b): `edit_refines_delete_nth` — ONE iterator standing ANYWHERE keeps its place in the
+  plain list's terms when `hostlist_delete_nth` takes ANY position away (the repairs of
+  F16-DELETE-UNDER-ITERATOR / F16-MULTI, `hostlist_host_deleted`, and of D19), and from it, for ANY finite
+  set of live iterators, `edit_refines_multi_delete_nth`, `_find`, `_delete_host` (SMALL name) and
+  `_remove` (`hostlist_remove` through one iterator is `hostlist_delete_nth` for all the OTHERS).
+
+  Not proved (correspondence + witnesses only): `hostlist_sort` (not in the editable model: judged against
+  the plain-list specification only); a push while an iterator stands at the end (true once F16-ENDPUSH
+  is repaired: `endpush_witness`; `AtPos` / `itNext_none_pos` of Hostlist/LemmasIterEdit.lean are the
   invariant it needs); duplicate-freedom after `uniq` (false: F16-UNIQ).
 -/
 import PdshVerif.Hostlist.LemmasFind
@@ -53,6 +57,7 @@ import PdshVerif.Hostlist.EditRefineText
 import PdshVerif.Hostlist.EditRefineUniq
 import PdshVerif.Hostlist.EditMultiKeyed
 import PdshVerif.Hostlist.EditMultiUniq
+import PdshVerif.Hostlist.EditMultiRemove2
 
 namespace PdshVerif.C16
 open PdshVerif.Hostlist PdshVerif.Gen
@@ -294,6 +299,47 @@ theorem edit_refines_multi_uniq (cfg : Cfg) (hfs : cfg.fixIterSuffix = true) (e 
       RefM cfg e' ⟨e'.hosts, p.cur.map fun (k, _) => (k, 0)⟩ (fun _ => false) :=
   uniq_refinesM cfg hfs e p fr h hb hsm hreset e' hu hnd
 
+/-- DELETE BY POSITION under ONE live iterator standing anywhere (F16-DELETE-UNDER-ITERATOR and D19
+    repaired): the cursor moves down by one exactly when the deleted position lay in front of it -/
+theorem edit_refines_delete_nth (cfg : Cfg) (hfs : cfg.fixIterSuffix = true) (hD19 : cfg.fixRemoveDepth = true)
+    (hID : cfg.fixIterDelete = true) (e : EL) (p : EditSpec.PL) (c : Nat) (fresh : Bool) (h : Ref cfg e p c fresh)
+    (n : Nat) (hn : n < p.names.length) :
+    Ref cfg (deleteNthE cfg e n) (EditSpec.deleteNth p n) (if c > n then c - 1 else c) false :=
+  deleteNth_refines cfg hfs hD19 hID e p c fresh h n hn
+
+/-- DELETE BY POSITION with any number of live iterators: EVERY iterator goes on over the list without
+    position n from where it stood -/
+theorem edit_refines_multi_delete_nth (cfg : Cfg) (hfs : cfg.fixIterSuffix = true) (hD19 : cfg.fixRemoveDepth = true)
+    (hID : cfg.fixIterDelete = true) (e : EL) (p : EditSpec.PL) (fr : Nat → Bool) (h : RefM cfg e p fr)
+    (n : Nat) (hn : n < p.names.length) :
+    RefM cfg (deleteNthE cfg e n) (EditSpec.deleteNth p n) (fun _ => false) :=
+  deleteNth_refinesM cfg hfs hD19 hID e p fr h n hn
+
+/-- FIND with any number of live iterators: no iterator moves (a width may be rewritten in place), and for a
+    SMALL name the answer is the plain list's: the first position of the name or -1 -/
+theorem edit_refines_multi_find (cfg : Cfg) (hfs : cfg.fixIterSuffix = true) (e : EL) (p : EditSpec.PL)
+    (fr : Nat → Bool) (h : RefM cfg e p fr) (x : Str) :
+    RefM cfg (findE e x).2 p fr ∧ (SmallName x → (findE e x).1 = EditSpec.find p x) :=
+  find_refinesM cfg hfs e p fr h x
+
+/-- DELETE BY NAME with any number of live iterators (SMALL name; F16-BIGSUFFIX is outside): the answer and
+    the list are the plain list's — the first occurrence goes — and every iterator follows -/
+theorem edit_refines_multi_delete_host (cfg : Cfg) (hfs : cfg.fixIterSuffix = true) (hD19 : cfg.fixRemoveDepth = true)
+    (hID : cfg.fixIterDelete = true) (e : EL) (p : EditSpec.PL) (fr : Nat → Bool) (h : RefM cfg e p fr)
+    (x : Str) (hsm : SmallName x) :
+    (deleteHostE cfg e x).1 = ((EditSpec.deleteHost p x).1 : Int) ∧
+      RefM cfg (deleteHostE cfg e x).2 (EditSpec.deleteHost p x).2 (fun k => (EditSpec.find p x).isNone && fr k) :=
+  deleteHost_refinesM cfg hfs hD19 hID e p fr h x hsm
+
+/-- REMOVE through iterator k, directly after a `hostlist_next` on k that handed out a host, with any
+    number of OTHER live iterators (F16-MULTI repaired): exactly that list position goes, iterator k goes
+    on with what it had left, and every other iterator keeps its place in the plain list's terms -/
+theorem edit_refines_multi_remove (cfg : Cfg) (hfs : cfg.fixIterSuffix = true) (hD19 : cfg.fixRemoveDepth = true)
+    (hID : cfg.fixIterDelete = true) (e : EL) (p : EditSpec.PL) (fr : Nat → Bool) (h : RefM cfg e p fr)
+    (k : Nat) (hk : k ∈ e.its.map (·.1)) (hfresh : fr k = true) :
+    ∃ p' e', EditSpec.itRemove p k = some p' ∧ itRemove cfg e k = .ok e' ∧ RefM cfg e' p' (fun _ => false) :=
+  remove_refinesM cfg hfs hD19 hID e p fr h k hk hfresh
+
 /-- the empty list without iterators is in the relation (so is everything the operations above reach) -/
 theorem edit_refines_multi_init (cfg : Cfg) : RefM cfg EL.new EditSpec.PL.new (fun _ => false) := by
   refine ⟨?_, List.nodup_nil, .nil⟩
@@ -316,6 +362,34 @@ example (cfg : Cfg) (hfs : cfg.fixIterSuffix = true) (hfix : cfg.fixRemoveDepth 
     simp only [List.length_map] at hl
     rw [hl]; rfl
   · rfl
+
+/-- non-vacuity of the delete / remove theorems: two iterators on `a[1-3]`, iterator 0 hands out a host and
+    removes it while iterator 1 is live, then position 0 is deleted under both -/
+example (cfg : Cfg) (hfs : cfg.fixIterSuffix = true) (hfix : cfg.fixRemoveDepth = true) (hID : cfg.fixIterDelete = true) :
+    ∃ e p fr, RefM cfg e p fr ∧ p.names.length = 1 ∧ p.cur.length = 2 := by
+  have h0 := edit_refines_multi_init cfg
+  have hg : (HRange.mk' ['a'] 1 3 1).Good := by decide
+  have h1 := edit_refines_multi_push cfg hfs _ _ _ h0 (HRange.mk' ['a'] 1 3 1) hg (by intro b hb; cases hb)
+  have h2 := edit_refines_multi_new cfg _ _ _ h1 0 (by decide)
+  have h3 := edit_refines_multi_new cfg _ _ _ h2 1 (by decide)
+  obtain ⟨a, p4, e4, hs4, _, h4⟩ := edit_refines_multi_next cfg _ _ _ h3 0 (by decide)
+  have hP : EditSpec.itNext (EditSpec.itNew (EditSpec.itNew
+      { EditSpec.PL.new with names := EditSpec.PL.new.names ++ (HRange.mk' ['a'] 1 3 1).hosts } 0) 1) 0 =
+      some (some "a1".toList, ⟨["a1".toList, "a2".toList, "a3".toList], [(1, 0), (0, 1)]⟩) := by decide
+  rw [hP] at hs4
+  simp only [Option.some.injEq, Prod.mk.injEq] at hs4
+  obtain ⟨ha, hp4⟩ := hs4
+  subst ha; subst hp4
+  have hk4 : 0 ∈ e4.its.map (·.1) := by
+    rw [All2.keys (fun a b hab => hab.1) h4.each]; decide
+  obtain ⟨p5, e5, hs5, _, h5⟩ := edit_refines_multi_remove cfg hfs hfix hID _ _ _ h4 0 hk4 (by simp)
+  have hR : EditSpec.itRemove ⟨["a1".toList, "a2".toList, "a3".toList], [(1, 0), (0, 1)]⟩ 0 =
+      some ⟨["a2".toList, "a3".toList], [(1, 0), (0, 0)]⟩ := by decide
+  rw [hR] at hs5
+  simp only [Option.some.injEq] at hs5
+  subst hs5
+  have h6 := edit_refines_multi_delete_nth cfg hfs hfix hID _ _ _ h5 0 (by decide)
+  exact ⟨_, _, _, h6, rfl, rfl⟩
 
 /-! ### iterator scenarios (the recorded defects and their repairs) -/
 /-- run `hostlist_next` n times on iterator k -/
